@@ -15,7 +15,8 @@ E3_ASSUME = ['executed inside a testing/synctest bubble (go1.26.8): virtual cloc
              'select tie-breaks and the run order of goroutines between two quiescent points are chosen by the Go runtime (sampled, not enumerated); oracles accept every outcome the statement allows',
              'user functions are pure, total and honour ctx; element type int']
 
-E1_ASSUME = ['struct shapes and derivation requests are generated as Go source (harness/shapegen, rapid generators through Generator.Example(seed)), compiled against the working tree and run; field values are drawn by rapid at run time',
+E1_ASSUME = ['the run-time tier needs the hook hseq.VerifUnfold (build tag verif, add-only file hseq/verif_hook.go); it cannot see a focus behind a pointer being refused because its container type is an opaque Blob',
+             'struct shapes and derivation requests are generated as Go source (harness/shapegen, rapid generators through Generator.Example(seed)), compiled against the working tree and run; field values are drawn by rapid at run time',
              'ground truth is the compiler: field addresses come from ordinary selectors (&p.E1.E4.f), layouts from the compiled types',
              'field types range over a fixed universe of 47 types (scalars of every size, strings, slices, pointers, maps, chans, funcs, interfaces, arrays incl. zero-size and 264-byte ones, named types over each class); amd64 only',
              'nil *S arguments and recursive pointer embedding are outside the statements and not generated']
@@ -25,11 +26,13 @@ prop('C01',
      rule=('generated: struct shapes (1..7 fields per struct, value embedding to depth 4, pointer embedding, nested named structs, embedded non-struct named types, exported/unexported names colliding across depths, hseq tags with keys / empty keys / options / keys colliding with other field names) '
            'and for every focusable field (reached without crossing a pointer) a derivation by name and by type through ForProduct1/ForSpectrum1, plus N-ary derivations ForProductN/ForSpectrumN for drawn N in 2..9 by names in drawn order (same-typed fields preferred so a positional slip passes the type guard) and by types; '
            'each returned optic is exercised with drawn field contents and drawn values inside a canary-guarded arena whose EVERY leaf is filled: oracle = Get equals the bytes at the compiler-computed address; after Put the byte image of the arena (struct, padding, both canary zones, pointees) equals the old image with exactly the focus replaced by the new value; returned pointer identical; GetPut, PutGet, PutPut on images; same through Gett/Putt; '
-           'non-trivial = shape with >= 3 listed entries and a focus that is not the first entry or lies inside an embedded struct; distinct = different (shape, request)'),
+           ' Second tier (E2): struct shapes that exist only at run time (reflect.StructOf: 1..6 fields per struct, value/pointer embedding to depth 4, unexported names, tags) unfolded by the real unfold through the verif-tagged hook hseq.VerifUnfold and focused with optics.NewLens/NewReflector[Blob, A] for A over a static universe of 47 types; oracle: reflect\'s own addressing (FieldByIndex) for listing offsets and field memory, every OTHER focus type of the universe must be refused for the focused field, byte image of a canary-guarded arena for Put. non-trivial = shape with >= 3 listed entries and a focus that is not the first entry or lies inside an embedded struct; distinct = different (shape, request)'),
      assumptions=E1_ASSUME,
      parts=[
          dict(name='shapes', engine='E1', kind='gen', gen='lens', pkg='gen', test='TestShapes',
               quick=dict(shapes=12, pkgs=4, draws=25), thorough=dict(shapes=40, pkgs=32, draws=100, timeout=3000)),
+         dict(name='dyn', engine='E2', pkg='optdyn', test='TestDyn',
+              quick=dict(cases=12000, shards=2), thorough=dict(cases=150000, shards=16, timeout=3000)),
      ],
      manifest=dict(
          engine='E1', design_ref='3/E1, 4/C01',
@@ -44,11 +47,13 @@ prop('C02',
            'too few names (literal, and with the missing names hidden behind the capacity of the slice passed), one bad component inside an N-ary request, container type parameter *S (by name and by type), a focus that lies behind an embedded pointer, names/types that occur at several depths, '
            'and a Reflector handed S by value, **S, nil, *A, unsafe.Pointer, uintptr, a pointer to a twin struct type with the identical layout, a pointer to an unrelated struct; oracle: the model verdict computed from the spec alone: "panic" = the derivation must panic; '
            '"focus" = must not panic and pass the C01 image check at the model focus; "panic or correct" (focus behind a pointer) = either panics at derivation or passes the image check through the pointer with the pointee observed too; wrong dynamic arguments must panic and leave the arena byte-identical; '
-           'non-trivial = verdict panic / panic-or-correct, or a focus chosen among >= 2 candidates; distinct = different (shape, request)'),
+           ' Second tier (E2): struct shapes that exist only at run time (reflect.StructOf: 1..6 fields per struct, value/pointer embedding to depth 4, unexported names, tags) unfolded by the real unfold through the verif-tagged hook hseq.VerifUnfold and focused with optics.NewLens/NewReflector[Blob, A] for A over a static universe of 47 types; oracle: reflect\'s own addressing (FieldByIndex) for listing offsets and field memory, every OTHER focus type of the universe must be refused for the focused field, byte image of a canary-guarded arena for Put. non-trivial = verdict panic / panic-or-correct, or a focus chosen among >= 2 candidates; distinct = different (shape, request)'),
      assumptions=E1_ASSUME,
      parts=[
          dict(name='shapes', engine='E1', kind='gen', gen='lens', pkg='gen', test='TestShapes',
               quick=dict(shapes=12, pkgs=4, draws=25), thorough=dict(shapes=40, pkgs=32, draws=100, timeout=3000)),
+         dict(name='dyn', engine='E2', pkg='optdyn', test='TestDyn',
+              quick=dict(cases=12000, shards=2), thorough=dict(cases=150000, shards=16, timeout=3000)),
      ],
      manifest=dict(
          engine='E1', design_ref='3/E1, 4/C02',
@@ -61,11 +66,13 @@ prop('C03',
      rule=('generated on the same shapes: hseq.New[T]() compared entry by entry with the flattened listing computed from the spec (declaration order, embedded struct by value or by pointer listed and followed by its fields depth-first): Name, Type, PureType, ID = position, key = tag or name, '
            'and for every entry not behind a pointer RootOffs+Offset = address difference computed by the compiler through plain selectors; ForName/ForNameMaybe/New(name) for every key, for absent keys, for the empty key and for field names hidden by a tag; ForType for every type present, for absent and near-miss types; '
            'New(names...) in reversed order with a repeat and with an unknown name; New1..New9 by N-tuples of types (cyclic, both orders) and FMap1..FMap9 with recording functions (the i-th function sees the i-th entry exactly once), FMap over the whole listing; '
-           'non-trivial = shape with >= 5 entries and at least one embedding; distinct = different shape'),
+           ' Second tier (E2): struct shapes that exist only at run time (reflect.StructOf: 1..6 fields per struct, value/pointer embedding to depth 4, unexported names, tags) unfolded by the real unfold through the verif-tagged hook hseq.VerifUnfold and focused with optics.NewLens/NewReflector[Blob, A] for A over a static universe of 47 types; oracle: reflect\'s own addressing (FieldByIndex) for listing offsets and field memory, every OTHER focus type of the universe must be refused for the focused field, byte image of a canary-guarded arena for Put. non-trivial = shape with >= 5 entries and at least one embedding; distinct = different shape'),
      assumptions=E1_ASSUME,
      parts=[
          dict(name='shapes', engine='E1', kind='gen', gen='lens', pkg='gen', test='TestShapes',
               quick=dict(shapes=12, pkgs=4, draws=2), thorough=dict(shapes=40, pkgs=32, draws=2, timeout=3000)),
+         dict(name='dyn', engine='E2', pkg='optdyn', test='TestDyn',
+              quick=dict(cases=12000, shards=2), thorough=dict(cases=150000, shards=16, timeout=3000)),
      ],
      manifest=dict(
          engine='E1', design_ref='3/E1, 4/C03',
